@@ -343,9 +343,10 @@ class FullFrontend(ConstrainedFrontend):
             return ()
 
         solver = self._get_solver()
-        if self._solver_backend.reuse_z3_solver:
-            # _get_solver() has just reset and refilled the shared solver: it must be checked again to report a core
-            self._solver_backend.check_satisfiability(extra_constraints=extra_constraints, solver=solver)
+        # the answer above may come from a cache (a branch of an unsatisfiable solver, a concrete False) or, with
+        # reuse_z3_solver, from a solver that _get_solver() has just reset and refilled: the backend solver reports a core
+        # only for the check it has made itself
+        self._solver_backend.check_satisfiability(extra_constraints=extra_constraints, solver=solver)
         unsat_core = self._solver_backend.unsat_core(solver)
 
         return tuple(unsat_core)
